@@ -423,3 +423,75 @@ def run_case(ctx, case):
     # hook: structural correspondence with the Lean model (cores of f / g are available here)
     if getattr(ctx, "use_model", False) and not getattr(ctx, "search_only", False):
         pass  # MODEL HOOK (main session): compare core.from_tn(f) with the model's cores for `tree` on the integer stream
+
+
+# =============================================================================== correspondence with the Lean model (main session)
+def _gen_form(rng, N, depth):
+    if depth == 0 or rng.random() < 0.25:
+        return ["sym", rng.randrange(N)]
+    r = rng.random()
+    if r < 0.2:
+        return ["not", _gen_form(rng, N, depth - 1)]
+    return [rng.choice(["and", "or", "xor"]), _gen_form(rng, N, depth - 1), _gen_form(rng, N, depth - 1)]
+
+
+def _corr_cases(rng, tier):
+    n = {"quick": 120, "thorough": 1500, "search": 0}[tier]
+    return [{"kind": "corr", "N": (N := rng.randint(1, 4)), "form": _gen_form(rng, N, rng.randint(1, 3))} for _ in range(n)]
+
+
+_orig_cases = cases
+_orig_run_case = run_case
+
+
+def cases(rng, tier):  # noqa: F811
+    return _orig_cases(rng, tier) + _corr_cases(rng, tier)
+
+
+def run_case(ctx, case):  # noqa: F811
+    if case.get("kind") != "corr":
+        return _orig_run_case(ctx, case)
+    import itertools
+    from core import cmp_struct, from_tn, PT
+    from props.c02 import Model
+    N, form = case["N"], case["form"]
+    ctx.case(("corr", N, repr(form)), True, {"op": "model correspondence: formula tree through the C02 model", "N": N, "formula": form})
+    ctx.count("corr:formula")
+    syms = tn.symbols(N)
+
+    def ev(f, S, ops):
+        if f[0] == "sym":
+            return S[f[1]]
+        if f[0] == "not":
+            return ops["not"](ev(f[1], S, ops))
+        return ops[f[0]](ev(f[1], S, ops), ev(f[2], S, ops))
+
+    impl_ops = {"not": lambda a: ~a, "and": lambda a, b: a & b, "or": lambda a, b: a | b, "xor": lambda a, b: a ^ b}
+    r = safe(lambda: ev(form, syms, impl_ops))
+    if r[0] == "err":
+        ctx.oracle("formula %s raised %s: %s" % (form, r[1], r[2]), case); return
+    # truth table oracle
+    tab = np.zeros([2] * N)
+    bool_ops = {"not": lambda a: not a, "and": lambda a, b: a and b, "or": lambda a, b: a or b, "xor": lambda a, b: a != b}
+    for asg in itertools.product([0, 1], repeat=N):
+        tab[asg] = 1.0 if ev(form, [bool(v) for v in asg], bool_ops) else 0.0
+    got = r[1].torch().detach().double().numpy()
+    if not close(got, tab, 1e-9)[0]:
+        ctx.oracle("formula %s does not decompress to its truth table" % (form,), case)
+    if not (getattr(ctx, "use_model", False) and not getattr(ctx, "search_only", False)):
+        return
+    M = Model(ctx.drv())
+    leaves = [from_tn(s) for s in syms]
+    model_ops = {"not": lambda a: M.scalar("rssub", a, 1.0), "and": lambda a, b: M.mul(a, b),
+                 "or": lambda a, b: M.sub(M.add(a, b), M.mul(a, b)), "xor": lambda a, b: M.sub(M.add(a, b), M.mul(M.smul(2.0, a), b))}
+    try:
+        m = ev(form, leaves, model_ops)
+    except Exception as e:
+        ctx.corr("model failed on formula %s: %s" % (form, e), case); return
+    exact = "xor" not in repr(form)
+    d = cmp_struct(from_tn(r[1]), m, exact)
+    if d is not None:
+        ctx.corr("formula %s: implementation cores differ from model cores: %s" % (form, d), case)
+    md = PT([np.asarray(c, dtype=np.float64) for c in m.cores], [None if U is None else np.asarray(U, dtype=np.float64) for U in m.Us]).dense()
+    if not close(md, tab, 1e-9)[0]:
+        ctx.spec("model formula %s differs from the truth table" % (form,), case)
